@@ -244,3 +244,33 @@ func VerifH_C18_ReuseCloseSlowConnClose() {
 		verifrt.Assert(c == conns[0] || c.nWrites == 0, "nothing is sent over a connection that joined a closed transport")
 	}
 }
+
+// VerifH_C18_PipelineAbandonedThenClose: an exchange on a healthy pipelined connection is abandoned by its caller (its
+// context ends; the server was just slow), then the transport is closed: the connection – still perfectly alive –
+// must be closed by Close() like every other one.
+func VerifH_C18_PipelineAbandonedThenClose() {
+	verifrt.Unwind(80)
+	verifrt.SchedBound(1)
+	var conns []*vNetConn
+	isTCP := verifrt.Bool("tcp")
+	t := NewPipelineTransport(PipelineOpts{IsTCP: isTCP, DialContext: func(ctx context.Context) (net.Conn, error) {
+		c := newVNetConn() // nobody answers on it
+		conns = append(conns, c)
+		return c, nil
+	}})
+	ctx, cancel := verifrt.CtxWithCancel(nil)
+	res := make(chan vExRes, 1)
+	go func() { r, err := t.ExchangeContext(ctx, vQuery12(1, 1)); res <- vExRes{r, err} }()
+	verifrt.Quiesce()
+	verifrt.Assert(len(conns) == 1, "the query is on the wire")
+	cancel()
+	rr := <-res
+	verifrt.Assert(rr.m == nil && rr.err != nil, "the abandoned exchange returns its context error")
+	verifrt.Quiesce()
+	verifrt.Assert(t.Close() == nil, "close returns")
+	verifrt.Quiesce()
+	verifrt.Reach("closed")
+	for _, c := range conns {
+		verifrt.Assert(c.closed, "no upstream connection stays open after Close, also one whose last exchange was abandoned")
+	}
+}
